@@ -56,9 +56,22 @@ func HarnessC14Routes() {
 	if sbody == "" {
 		sbody = "        description: d\n"
 	}
-	src := "on:\n  workflow_call:\n    inputs:\n      " + name + ":\n" + body +
+	// the whole declaration of the input: a mapping (above), nothing, `~`, an alias
+	// of an anchored null, an alias of an anchored mapping
+	decl := name + ":\n" + body
+	switch verifChoose("shape", 5) {
+	case 1:
+		decl = name + ":\n"
+	case 2:
+		decl = name + ": ~\n"
+	case 3:
+		decl = "zero: &nothing\n      " + name + ": *nothing\n"
+	case 4:
+		decl = "zero: &m\n" + body + "      " + name + ": *m\n"
+	}
+	src := "on:\n  workflow_call:\n    inputs:\n      " + decl +
 		"    secrets:\n      Sec1:\n" + sbody +
-		"    outputs:\n      Out1:\n        value: v\n" +
+		[]string{"    outputs:\n      Out1:\n        value: v\n", ""}[verifChoose("nooutputs", 2)] +
 		"jobs:\n  j:\n    runs-on: ubuntu-latest\n    steps:\n      - run: echo\n"
 	// route 1: decoded from the file
 	m1, err := parseReusableWorkflowMetadata([]byte(src))
@@ -68,6 +81,21 @@ func HarnessC14Routes() {
 	info := strconv.Itoa(len(perrs)) + " errs; " + verifErrTextConc(perrs)
 	verifCheck(w != nil, "callee-file-does-not-parse")
 	if w == nil || err != nil {
+		return
+	}
+	{
+		// a caller that passes every declared input is checked against the interface from the file
+		pc := NewLocalReusableWorkflowCache(&Project{root: "/r"}, "/r", nil)
+		pc.cache["./.github/workflows/callee.yml"] = m1
+		caller := "on: push\njobs:\n  c:\n    uses: ./.github/workflows/callee.yml\n    with:\n      " + name + ": v\n      zero: w\n    secrets:\n      Sec1: s\n"
+		verifLintNode(verifParseYAML(caller), []Rule{NewRuleWorkflowCall("/r/.github/workflows/w.yml", pc), NewRuleExpression(NewLocalActionsCache(nil, nil), pc)})
+		verifReach("caller-checked")
+	}
+	if len(perrs) > 0 {
+		// actionlint itself rejects this callee (aliases are not accepted in workflow files):
+		// only the file route is exercised — it must still produce a complete interface
+		_ = verifMetaDigest(m1)
+		verifReach("rejected-callee")
 		return
 	}
 	var ev *WorkflowCallEvent
@@ -88,6 +116,15 @@ func HarnessC14Routes() {
 	verifReach("compared")
 	d1, d2 := verifMetaDigest(m1), verifMetaDigest(m2)
 	verifCheckf(d1 == d2, "interface-from-file-differs-from-interface-from-syntax-tree", "file: "+d1+" | tree: "+d2)
+	// a caller and a job that reads an undeclared output of the call get the same diagnostics with either interface
+	use := func(m *ReusableWorkflowMetadata) string {
+		pc := NewLocalReusableWorkflowCache(&Project{root: "/r"}, "/r", nil)
+		pc.cache["./.github/workflows/callee.yml"] = m
+		caller := "on: push\njobs:\n  c:\n    uses: ./.github/workflows/callee.yml\n    with:\n      " + name + ": v\n    secrets:\n      Sec1: s\n  r:\n    needs: [c]\n    runs-on: ubuntu-latest\n    steps:\n      - run: echo ${{ needs.c.outputs.out1 }} ${{ needs.c.outputs.nope }}\n"
+		return verifErrTextConc(verifLintNode(verifParseYAML(caller), []Rule{NewRuleWorkflowCall("/r/.github/workflows/w.yml", pc), NewRuleExpression(NewLocalActionsCache(nil, nil), pc)}))
+	}
+	u1, u2 := use(m1), use(m2)
+	verifCheckf(u1 == u2, "caller-diagnostics-depend-on-the-route-of-the-interface", "file: "+u1+" | tree: "+u2)
 }
 
 // ---- local action interface decoded from action.yml ----
@@ -122,7 +159,19 @@ func HarnessC14ActionFile() {
 	def := []string{"", "    default: ''\n", "    default: x\n", "    default: null\n"}
 	decl := []string{"token", "Token", "TOKEN"}[verifChoose("declared", 3)]
 	r, d := verifChoose("required", len(req)), verifChoose("default", len(def))
-	verifC14ActionYAML = "name: act\ndescription: d\ninputs:\n  " + decl + ":\n    description: d\n" + req[r] + def[d] +
+	// the whole declaration: a mapping, nothing, `~`, an alias of an anchored null
+	// (the last three declare an optional input without default)
+	shape := verifChoose("shape", 4)
+	declText := decl + ":\n    description: d\n" + req[r] + def[d]
+	switch shape {
+	case 1:
+		declText = decl + ":\n"
+	case 2:
+		declText = decl + ": ~\n"
+	case 3:
+		declText = "zero: &nothing\n  " + decl + ": *nothing\n"
+	}
+	verifC14ActionYAML = "name: act\ndescription: d\ninputs:\n  " + declText +
 		"outputs:\n  Result:\n    description: d\nruns:\n  using: node20\n  main: index.js\n"
 	supplied := []string{"", "token", "TOKEN", "Token", "other"}[verifChoose("supplied", 5)]
 	outRef := []string{"result", "RESULT", "nope"}[verifChoose("output", 3)]
@@ -131,7 +180,11 @@ func HarnessC14ActionFile() {
 	var withKey *yaml.Node
 	if supplied != "" {
 		withKey = s(supplied)
-		step = append(step, s("with"), yMap(withKey, s("v")))
+		if verifChoose("withfirst", 2) == 1 {
+			step = []*yaml.Node{s("with"), yMap(withKey, s("v")), s("id"), s("a"), s("uses"), s("./act")}
+		} else {
+			step = append(step, s("with"), yMap(withKey, s("v")))
+		}
 	}
 	ref := s("echo ${{ steps.a.outputs." + outRef + " }}")
 	doc := yDoc(yMap(s("on"), s("push"), s("jobs"), yMap(s("j"), yMap(
@@ -164,7 +217,7 @@ func HarnessC14ActionFile() {
 		}
 	}
 	suppliesIt := supplied != "" && supplied != "other"
-	wantMissing := r == 1 && (d == 0 || d == 3) && !suppliesIt
+	wantMissing := shape == 0 && r == 1 && (d == 0 || d == 3) && !suppliesIt
 	verifCheck((missing == 1) == wantMissing && missing <= 1, "missing-required-input-verdict-differs-from-the-declaration")
 	verifCheck((undeclared == 1) == (supplied == "other") && undeclared <= 1, "undeclared-input-verdict-differs-from-the-declaration")
 	verifCheck((badOut >= 1) == (outRef == "nope"), "output-verdict-differs-from-the-declaration")
